@@ -11,8 +11,30 @@ from formobs import NS, local
 SELECT_TAGS = {"select", "select1", "rank"}
 
 
+def instance_texts(xform: str) -> list:
+    """The text of every `<instance id=…>` element of a compact XForm, in document order."""
+    out, i = [], 0
+    while True:
+        i = xform.find("<instance id=", i)
+        if i < 0:
+            return out
+        j = xform.find(">", i)
+        if j < 0:
+            return out
+        if xform[j - 1] == "/":
+            end = j + 1
+        else:
+            k = xform.find("</instance>", j)
+            if k < 0:
+                return out
+            end = k + len("</instance>")
+        out.append(xform[i:end])
+        i = end
+
+
 def observe(xform: str, itemsets) -> dict:
     root = ET.fromstring(xform)
+    texts = instance_texts(xform)
     model = root.find("h:head/x:model", NS)
     body = root.find("h:body", NS)
     instances = []
@@ -21,7 +43,9 @@ def observe(xform: str, itemsets) -> dict:
         r = inst.find("x:root", NS)
         if r is not None:
             items = [[[local(c.tag), c.text or ""] for c in it] for it in r.findall("x:item", NS)]
-        instances.append({"id": inst.get("id"), "src": inst.get("src"), "items": items})
+        n = len(instances)
+        instances.append({"id": inst.get("id"), "src": inst.get("src"), "items": items,
+                          "xml": texts[n] if n < len(texts) else None})
     binds = {b.get("nodeset"): b for b in model.findall("x:bind", NS)}
     inputs = {}
     selects = []
